@@ -115,3 +115,27 @@ def prog_primes():
         pass
 
     return "W", "H'"
+
+
+def prog_unitary():
+    # a Hermitian product whose factors start with the identity (the `one` sentinel takes part in the products)
+    with "A":
+        start = 0
+        f("H") / 2
+
+    with "U":
+        start = 1
+        "A"
+
+    with "Ud":
+        start = 1
+        "A".adj
+
+    with "N":
+        start = 0
+        "Ud @ U" + "A" / 3
+
+    with "Ud @ U":
+        hermitian
+
+    return "N", "U", "Ud"
